@@ -2,7 +2,7 @@
     Constant / Extract Inductive directives of our own). *)
 From Coq Require Extraction ExtrOcamlBasic.
 From Crdt Require Import model.VClock model.Simple model.Orswot model.MVReg model.Map
-  model.Identifier model.List model.Merkle extract.Glue.
+  model.Identifier model.List model.Merkle extract.Glue spec.VClockSpec.
 
 Extraction Language OCaml.
 Extraction "model.ml"
@@ -24,4 +24,6 @@ Extraction "model.ml"
   vc_of_list vc_to_list nset_of_list nset_to_list nmap_of_list nmap_to_list
   cmap_of_list cmap_to_list vc_eqb nset_eqb nmap_eqb list_eqb option_eqb orswot_eqb mv_eqb
   mv_dec orswot_dec cmap_dec cmap_eqb pn_eqb lww_eqb merkle_eqb mnode_eqb nodemap_eqb
+  spec_cmp spec_merge_ok spec_glb_ok spec_reset_ok spec_intersection_ok spec_apply_ok
+  spec_validate_ok spec_inc_ok
   mv_perm_eqb n_add n_mul z_add z_mul z_opp z_of_n mkqc n_to_nat n_of_nat.
